@@ -75,7 +75,7 @@ InputsOf(p) ==
            rX      : {"genuine", "geN", "isN", "otherPoint", "noRoot", "geP", "smallXPlusP"},
            sLen    : {"len32", "len0", "len31", "len33"},
            s       : {"valid", "zero", "negated", "other", "geN", "validPlusN"},
-           hash    : {"same", "changedTail", "changedHead"},
+           hash    : {"same", "changedTail", "changedHead", "forInf"},   \* forInf: e = -r*d, so that e*G + r*X = infinity whatever s is
            pub     : {"genuine", "other"} ]
     [] p = "liftx" ->
          [ x : {"evenSrc", "oddSrc", "noRoot", "geP"} ]
@@ -115,6 +115,7 @@ Feasible(p, i) ==
          /\ (i.s \in {"nonceFlipped", "forInf"} => i.pk \in {"genuine", "otherKey"})   \* needs the secret of the key used
          /\ (i.pkLen = "len31crafted" => i.pk = "genuine")
     [] p = "sign" -> (i.rPar = "anyR") <=> (i.rnd # "aux32")                        \* nonce parity is only controllable through aux
+    [] p = "ecdsaverify" -> (i.hash = "forInf" => (i.rX = "genuine" /\ i.pub = "genuine"))   \* needs the secret of the key and the r that is sent
     [] OTHER -> TRUE
 
 (***************************************************************************************************)
